@@ -79,6 +79,11 @@ def build(h):
         tag = Req(str)
         ref = Opt(classes[0], reverse='holders')
         items = Set(classes[0], reverse='bags')
+        seconds = Set('R2')
+
+    class R2(db.Entity):                                    # refers to a holder: the holder is known by key only when its reference is read for the first time
+        tag = Req(str)
+        r = Req(R)
     db.generate_mapping(create_tables=True)
     created = {}
     with orm.db_session:
@@ -87,8 +92,8 @@ def build(h):
             o = cls(name='obj_' + cls.__name__)
             orm.flush()
             created[o.id] = cls
-            R(tag='holder_' + cls.__name__, ref=o); bag.items.add(o)
-    M = types.SimpleNamespace(db=db, classes=classes, R=R, created=created, root=classes[0])
+            R2(tag='second_' + cls.__name__, r=R(tag='holder_' + cls.__name__, ref=o)); bag.items.add(o)
+    M = types.SimpleNamespace(db=db, classes=classes, R=R, R2=R2, created=created, root=classes[0])
     _MODELS[h] = M
     return M
 
@@ -96,7 +101,7 @@ def build(h):
 HIER = ('chain', 'diamond', 'deep', 'str_discriminator', 'int_discriminator', 'zero_discriminator')
 WAYS = ('getitem_root', 'getitem_every_ancestor', 'get_every_ancestor', 'select_root', 'generator_root', 'via_reference', 'via_collection', 'via_collection_copy', 'via_collection_select',
         'unloaded_reference', 'seed_then_getitem_root', 'seed_then_getitem_own_class', 'select_by_sql',
-        'prefetch', 'projection', 'get_by_name')
+        'prefetch', 'projection', 'get_by_name', 'two_hops_first_read', 'two_hops_read_twice')
 
 
 def _rc_configs(tier):
@@ -142,6 +147,10 @@ def _rc_case(cfg, values):
                 elif w == 'prefetch': got = [r.ref for r in R.select().prefetch(R.ref) if r.ref is not None and r.ref._pkval_ == pk]
                 elif w == 'projection': got = list(orm.select(r.ref for r in R if r.ref.id == pk))
                 elif w == 'get_by_name': got = [root.get(name='obj_' + cls.__name__)]
+                elif w == 'two_hops_first_read': got = [M.R2.get(tag='second_' + cls.__name__).r.ref]          # the holder is a seed: its row is loaded by this very read
+                elif w == 'two_hops_read_twice':
+                    h = M.R2.get(tag='second_' + cls.__name__).r; first = h.ref; t1 = type(first); second = h.ref
+                    got = [first, second] if t1 is type(second) else [first, second, None]                          # (the class of one object must not change between two reads)
                 n += 1
                 types_now = [type(o) for o in got]                  # the class at the moment the object is handed out, before anything else is asked of it
                 if len(got) < 1 or any(t is not cls for t in types_now) or len(set(map(id, got))) != 1:
@@ -215,7 +224,7 @@ def _empty(cfg, i, path):
 CONTRACTS = [
     Contract('reloaded_class', ['pony.orm.core:EntityMeta._get_from_identity_map_', 'pony.orm.core:EntityMeta._parse_row_', 'pony.orm.core:EntityMeta._construct_discriminator_criteria_',
                                 'pony.orm.core:EntityMeta._find_in_cache_', 'pony.orm.core:EntityMeta._fetch_objects', 'pony.orm.core:Entity._load_'], _rc_configs, _rc_case,
-             [('object_has_its_creation_class_however_it_is_reached', _empty)], level='bounded', bound='6 hierarchies (up to 5 levels deep), one object per class, 16 ways of reaching it in a later session'),
+             [('object_has_its_creation_class_however_it_is_reached', _empty)], level='bounded', bound='6 hierarchies (up to 5 levels deep), one object per class, 18 ways of reaching it in a later session'),
     Contract('polymorphic_queries', ['pony.orm.core:EntityMeta._construct_discriminator_criteria_', 'pony.orm.sqltranslation:FuncIsinstanceMonad', 'pony.orm.sqltranslation:SQLTranslator.__init__'],
              _pq_configs, _pq_case, [('queries_and_isinstance_agree_with_python', _empty)], level='bounded', bound='6 hierarchies (up to 5 levels deep); every class and every pair of classes'),
 ]
